@@ -46,6 +46,8 @@ IsExceptionFor(f, out) ==
 
 \* C16: what a reply (if any is sent) to the single complete frame f must look like.
 \*   handler: "device" | "errTyped" (NewErrorParseTCP(code 4)) | "errGeneric" | others
+\*   (a handler error that carries addressing of its own - "errRelayed" in the generator - is judged as "errGeneric":
+\*   whatever the error value holds, the reply is the exception FOR THE REQUEST)
 ReplyVerdict(f, handler, out) ==
     LET cls == FrameClass(f) IN
     IF out = <<>> THEN "ok"                              \* the statement constrains the replies that ARE sent
